@@ -1,6 +1,6 @@
 (* C08 — property theorems only.  Statements are pinned; proofs are one `exact`. *)
 From Coq Require Import List ZArith Bool Sorting.Permutation Sorting.Sorted.
-From RD Require Import C08.Model C08.Sel C08.Gen C08.Hist C08.Take.
+From RD Require Import C08.Model C08.Sel C08.Gen C08.Hist C08.Take C08.Keep C08.Oracle.
 Import ListNotations.
 Open Scope Z_scope.
 
@@ -112,3 +112,46 @@ Theorem C08_keep_all_unlimited_old_refuted :
   /\ ok unlimited_case (run unlimited_case) = true.
 Proof. exact unlimited_refuted. Qed.
 Print Assumptions C08_keep_all_unlimited_old_refuted.
+
+(* History depth, count part: at any moment of any history (after the pending arrivals have been
+   handed to add_sample) no instance has more than `keep` samples available, keep being the
+   KeepLast depth, 1 for the default history, max_samples_per_instance for KeepAll with a
+   non-negative limit.  (That the survivors are the most recent ones is checked by the oracle on
+   the sampled cases, not proved: hence _partial.) *)
+Theorem C08_keep_last_partial : forall fixed ul q k,
+  keep_limit ul q = Some k ->
+  forall l key,
+  Z.of_nat (length (filter (fun d => d_key d =? key)
+                           (samples (st_cache (fill ul q (exec_state fixed ul q init l))))))
+  <= Z.max k 0.
+Proof. exact keep_last. Qed.
+Print Assumptions C08_keep_last_partial.
+Example C08_keep_last_nonvacuous :
+  keep_limit true (mkQos (HKeepLast 2) None) = Some 2 /\ keep_limit true (mkQos HNone (Some 7)) = Some 1
+  /\ keep_limit true (mkQos HKeepAll (Some 3)) = Some 3 /\ keep_limit true (mkQos HKeepAll (Some (-1))) = None.
+Proof. repeat split. Qed.
+
+(* the oracle's per-sample verdict as a proposition over the specification state it replays *)
+Theorem C08_oracle_sound : forall keep s o,
+  ok_sample keep s o = true ->
+  exists a, find_arr s (o_w o) (o_sn o) = Some a
+    /\ a_key a = o_key o /\ a_val a = o_val o
+    /\ has_id (o_w o) (o_sn o) (sp_taken s) = false
+    /\ o_dgen o = a_gen a /\ o_ngen o = 0
+    /\ (exists alive g, alook (sp_inst s) (o_key o) = Some (alive, g) /\ o_alive o = alive)
+    /\ (memZ (o_key o) (sp_fuzzy s) = false ->
+        o_read o = has_id (o_w o) (o_sn o) (sp_read s)
+        /\ o_new o = match alook (sp_acc s) (o_key o) with
+                     | Some g => g <? o_dgen o
+                     | None => true
+                     end)
+    /\ (forall k, keep = Some k -> 1 <= k ->
+        existsb (fun b => (a_w b =? o_w o) && (a_sn b =? o_sn o)) (recent s (o_key o) k) = true).
+Proof. exact ok_sample_sound. Qed.
+Print Assumptions C08_oracle_sound.
+
+(* ok (run c) = true is NOT proved for all c; it is machine-checked exhaustively on the box of all
+   op lists of length <= 4 over 8 letters x 3 History settings (14043 cases) *)
+Theorem C08_model_ok_partial : forall c, In c box -> ok c (run c) = true.
+Proof. exact model_ok_bounded. Qed.
+Print Assumptions C08_model_ok_partial.
